@@ -23,6 +23,7 @@ static void draw(Saved& d, bool inrange)
    {
       int x = vp_nondet_int();
       if(inrange) vp_assume(x >= ST::intParam.lower[i] && x <= ST::intParam.upper[i]);
+      if(inrange && i == SoPlex::OBJSENSE) vp_assume(x != 0);          // only enumerated choices are reachable states
       d.i[i] = x;
    }
    for(int i = 0; i < SoPlex::REALPARAM_COUNT; ++i)
@@ -73,6 +74,9 @@ extern "C" void h_c15_set_int()
    bool ok = sp->setIntParam((SoPlex::IntParam)p, v, init);
    bool inrange = v >= ST::intParam.lower[p] && v <= ST::intParam.upper[p];
    if(!inrange) vp_assert(!ok || (!init && v == s0.i[p]), 1);     // out of range => rejected
+   // "not among the enumerated choices" => rejected: the objective sense is the one parameter whose choices {-1,+1} are not
+   // a contiguous range
+   if(p == SoPlex::OBJSENSE && v != SoPlex::OBJSENSE_MINIMIZE && v != SoPlex::OBJSENSE_MAXIMIZE) vp_assert(!ok || (!init && v == s0.i[p]), 4);
    if(!ok) assert_others_unchanged(st, s0, -1, -1, 10);            // rejected => nothing changed (atomic)
    else
    {
